@@ -2,6 +2,7 @@ INIT Init
 NEXT Next
 INVARIANT LockDiscipline
 INVARIANT Linearizable
+INVARIANT NoDeadlock
 CONSTRAINT Emit
 VIEW View
 CHECK_DEADLOCK FALSE
